@@ -150,3 +150,36 @@ func DeclContexts() []Ctx {
 		c("in-func-lit", fn("_ = func() {\n\t\t§\n\t}")),
 	}
 }
+
+// TypeContexts: slots that hold a type expression.
+func TypeContexts() []Ctx {
+	c := func(id, src string) Ctx { return Ctx{ID: id, Kind: "type", Src: src} }
+	return []Ctx{
+		c("var-type", "package p\n\nvar v §\n"),
+		c("slice-elem", "package p\n\nvar v []§\n"),
+		c("map-key", "package p\n\nvar v map[§]int\n"),
+		c("map-value", "package p\n\nvar v map[string]§\n"),
+		c("chan-elem", "package p\n\nvar v chan §\n"),
+		c("array-elem", "package p\n\nvar v [3]§\n"),
+		c("pointer-elem", "package p\n\nvar v *§\n"),
+		c("param-type", "package p\n\nfunc f(a §) {}\n"),
+		c("variadic-type", "package p\n\nfunc f(a ...§) {}\n"),
+		c("result-type", "package p\n\nfunc f() § { panic(0) }\n"),
+		c("named-result-type", "package p\n\nfunc f() (r §, err error) { return }\n"),
+		c("recv-type", "package p\n\nfunc (r §) m() {}\n"),
+		c("recv-ptr-type", "package p\n\nfunc (r *§) m() {}\n"),
+		c("field-type", "package p\n\ntype T struct {\n\tf §\n}\n"),
+		c("type-def", "package p\n\ntype U §\n"),
+		c("type-alias", "package p\n\ntype U = §\n"),
+		c("conversion", fn("_ = §(1)")),
+		c("type-assert", fn("_ = v.(§)")),
+		c("typeswitch-case", fn("switch v.(type) {\n\tcase §:\n\t}")),
+		c("composite-elem-type", fn("_ = []§{}")),
+		c("composite-type", fn("_ = §{1}")),
+		c("constraint", "package p\n\nfunc f[P §]() {}\n"),
+		c("type-arg", fn("_ = g[§](1)")),
+		c("iface-embed", "package p\n\ntype I interface {\n\t§\n}\n"),
+		c("func-lit-param", fn("_ = func(a §) {}")),
+		c("new-arg", fn("_ = new(§)")),
+	}
+}
